@@ -153,6 +153,8 @@ struct C05 : public Driver {
             tr.ev(ff.str("src") + ">" + ff.str("ss") + ">" + ff.str("target") + "@" + ff.str("layer") + " st=" + std::to_string(o.status) + " threw=" + o.exc + " out=" + hex64(fnvStr(o.isTree ? o.canon : o.bytes)));
         }
         const FormOut& ref = outs[0]; const Json& rf = forms.a[0];
+        // a generated tuple is meant to transform: a reference that fails with nothing faulted compares nothing (generator slip, or a library error on valid input)
+        if (!faulty) { if (ref.status != 0 || ref.threw) { res.count("reference_failed_without_fault"); tr.ev("ref-failed " + ref.err.substr(0, 120)); } else res.count("reference_succeeded_without_fault"); }
         bool nontrivial = false; for (auto& f : plan.at("features").a) if (f.s == "sort2" || f.s == "key" || f.s == "keyids" || f.s.compare(0, 4, "num-") == 0 || f.s == "docfn") nontrivial = true; if (nontrivial) res.count("tuples_with_nontrivial_feature");
         std::string refCanon;
         auto canonOf = [&](const FormOut& o) -> std::string { if (o.isTree) return o.canon; if (emptyResult(o.bytes)) return "D{}"; std::string e; std::string c = canonFromBytes(o.bytes, &e); return c.empty() ? "NOT-WELL-FORMED:" + e : c; };
